@@ -89,6 +89,7 @@ def schedules(rng, tier, n):
 
 
 WORKLOAD_MODULES = ["c04", "c17", "c12", "c15", "c18", "c19", "c08"]
+REPLAY_MODULES = ["c03", "c05", "c06", "c07", "c12", "c14", "c15", "c18", "c19", "c20", "c08"]
 
 
 def check(rep, tier, seed):
@@ -231,6 +232,38 @@ def check(rep, tier, seed):
                                   dict(wit, without_injection=c0.text.strip()[:600], with_injection=cr.text.strip()[:600]))
         if cases:
             rep.sample({"workload": mname, "form": cases[0][1][:300], "schedules": scs[:3]})
+    # ---- (d) thorough only: the complete quick workloads of the other properties, replayed under ambient injection -----
+    # Each module's check runs twice into scratch reports, without and with a forced-collection schedule applied to every
+    # interpreter process it starts; a violation signature that appears only under injection is a C02 violation.
+    if tier != "quick":
+        import json as _json
+        for mname in REPLAY_MODULES:
+            try:
+                mod = importlib.import_module("vf.props." + mname)
+            except ImportError:
+                continue
+            sigs = {}
+            for label, amb in (("plain", {}), ("injected", {"CHIBI_VERIF_GC": "rand:%d:2" % (seed + 7), "CHIBI_VERIF_HEAPCHECK": "3"})):
+                sh = report.Report(mname.upper(), "quick", seed)
+                B.AMBIENT_ENV.clear()
+                B.AMBIENT_ENV.update(amb)
+                try:
+                    mod.check(sh, "quick", seed)
+                except B.HarnessError as ex:
+                    rep.inconc("replay-harness-error", "%s %s: %s" % (mname, label, str(ex)[:200]))
+                finally:
+                    B.AMBIENT_ENV.clear()
+                sigs[label] = {}
+                for sg, wit in sh.violations:
+                    sigs[label].setdefault(_json.dumps(sg, sort_keys=True), wit)
+                rep.case(("replay", mname, label), n=max(1, sh.evaluations))
+                rep.count("replayed_cases_" + label, sh.evaluations)
+            for key, wit in sigs["injected"].items():
+                if key not in sigs["plain"]:
+                    sg = _json.loads(key)
+                    rep.violation({"check": "replay-under-injection", "workload": mname, "how": "only-under-injection",
+                                   "mode": sg.get("mode") or sg.get("kind") or sg.get("check")},
+                                  {"workload_signature": sg, "witness": wit})
     rep.extra.update(allocations_seen=totals["allocs"], forced_collections=totals["forced"],
                      allocation_paths_seen=totals["paths"], allocation_paths_forced=totals["paths_forced"],
                      heap_checks=totals["hc_runs"], heap_objects_checked=totals["hc_objs"],
